@@ -436,3 +436,50 @@ def check_product_big(smt2, params, spec_):
     stats["lanes_congruent"] = len(outs)
     stats["analysis_s"] = round(time.time() - t0, 1)
     return {"status": "PASS", "stats": stats}
+
+
+# ------------------------------------------------------------------------------------------------- NTT120 module round trip
+def check_ntt_module_roundtrip(smt2, params, spec_):
+    nn, rsz, asz, negmask, qs = params["nn"], params["rsz"], params["asz"], params["negmask"], params["primes"]
+    Q = qs[0] * qs[1] * qs[2] * qs[3]
+    M63 = (1 << 63) - 1
+    vc = vcalg.VC(smt2)
+    dom = vcalg.IntDom()
+    dom.allow_signed = True
+    ev = vcalg.Evaluator(vc, dom)
+    ins = {}
+    for i, nme in sorted(vc.final_versions("VF_X").items()):
+        p = ev.ev(nme)
+        a = list(p.t)[0][0]
+        ins[i] = a
+        dom.ranges[a] = (0, M63)
+    dom.obl_ok, dom.open = 0, []
+    ev = vcalg.Evaluator(vc, dom)
+    outs = {i: ev.ev(nme) for i, nme in sorted(vc.final_versions("VF_R128").items())}
+    stats = {"vc_definitions": len(vc.defs), "bv_operations_interpreted": dom.nops, "atoms": len(dom.names), "range_obligations_discharged": dom.obl_ok,
+             "range_obligations_open": len(dom.open), "nn": nn, "negmask": negmask}
+    rep = ["0"] * (asz * nn)
+    if dom.open:
+        return {"status": "FAIL", "stats": stats, "detail": "arithmetic may leave its word: " + "; ".join(dom.open[:3]), "replay_inputs": rep}
+    if len(outs) != rsz * nn:
+        return {"status": "INCONCLUSIVE", "stats": stats, "detail": "expected %d outputs, found %d" % (rsz * nn, len(outs))}
+    for i, r in sorted(outs.items()):
+        limb, j = divmod(i, nn)
+        if limb < asz:
+            v = ins[limb * nn + j]
+            xval = {(v,): 1, (): -(1 << 63)} if (negmask >> j) & 1 else {(v,): 1}
+        else:
+            xval = {}
+        if limb >= asz:
+            if r.t or r.lo != 0 or r.hi != 0:
+                return {"status": "FAIL", "stats": stats, "detail": "output limb %d beyond the input size is not exactly zero" % limb, "replay_inputs": rep}
+            continue
+        for k in range(4):
+            d = poly_mod(vcalg.ip_add(r.t, xval, -1), qs[k])
+            if d:
+                return {"status": "FAIL", "stats": stats, "replay_inputs": rep,
+                        "detail": "idft(dft(a)) coefficient %d of limb %d is not congruent to the input modulo prime %d (%d residual monomials)" % (j, limb, k, len(d))}
+        if not (2 * r.lo > -Q and 2 * r.hi <= Q):
+            return {"status": "FAIL", "stats": stats, "replay_inputs": rep, "detail": "result not provably the centered representative: [%d,%d]" % (r.lo, r.hi)}
+    stats["identity"] = "congruent to the input modulo all four primes and centered in (-Q/2,Q/2]: equals the input since |input| < 2^63 < Q/2"
+    return {"status": "PASS", "stats": stats}
